@@ -6,6 +6,11 @@ import (
 
 // configureProgram installs the harness-side models of library functions.
 func configureProgram(p *symex.Program) {
+	p.AddReplacement("github.com/kelindar/bitmap.Sum", "verifModelSum")
+	p.AddReplacement("github.com/kelindar/bitmap.Min", "verifModelMin")
+	p.AddReplacement("github.com/kelindar/bitmap.Max", "verifModelMax")
+	p.AddReplacement("(*github.com/kelindar/bitmap.Bitmap).Filter", "verifModelFilter")
+	p.AddReplacement("(github.com/kelindar/bitmap.Bitmap).Range", "verifModelRange")
 }
 
 // applyEngineParams lets registry parameters tune engine limits.
